@@ -102,7 +102,8 @@ func destroyScenario() *vrt.Scenario {
 	var f facts
 	var desc string
 	var reachedDestroy bool
-	return &vrt.Scenario{Name: "destroy", Prop: "C06", Doc: "destroy in every state x flags x per-task kill outcome", Cfg: cfg,
+	var transitionRefused bool
+	return &vrt.Scenario{Name: "destroy", Prop: "C06", Doc: "destroy in every state x flags x per-task kill outcome x (where the API first stops / resets) that transition refused by the critical task", Cfg: cfg,
 		Setup: coresim.ResetStore, Quick: vrt.Bounds{Dev: 0, Seconds: 100}, Thorough: vrt.Bounds{Dev: 1, Seconds: 500},
 		DeadlockClause: "destroy-hangs", PanicClause: "panic",
 		NonTrivial: func(*vrt.Exec) bool { return reachedDestroy },
@@ -113,9 +114,24 @@ func destroyScenario() *vrt.Scenario {
 			ko := []coresim.Outcome{killOutcomes[vrt.ChooseFree(len(killOutcomes), "kill0")], killOutcomes[vrt.ChooseFree(len(killOutcomes), "kill1")]}
 			// something that happened to the environment's tasks before the destroy request
 			pre := []string{"none", "executor-failed", "agent-failed", "task-failed", "task-lost"}[vrt.ChooseFree(5, "before-destroy")]
+			// the transition the API performs first when it is allowed to (STOP from RUNNING with allowInRunning, RESET from
+			// CONFIGURED) is refused by the critical task: the request must then be honoured by a forced teardown
+			during := "none"
+			switch {
+			case st == "RUNNING" && fl.allowRun && !fl.force:
+				during = []string{"none", "stop-fails"}[vrt.ChooseFree(2, "stop-during-destroy")]
+			case st == "CONFIGURED" && !fl.force:
+				during = []string{"none", "reset-fails"}[vrt.ChooseFree(2, "reset-during-destroy")]
+			}
+			destroying := false
 			m := coresim.NewMaster(agents()...)
 			f = facts{keepTasks: fl.keep}
+			transitionRefused = false
 			m.Behaviour = func(t *coresim.SimTask, kind string) coresim.Outcome {
+				if destroying && t.Class == "c06a" && (kind == "STOP" && during == "stop-fails" || kind == "RESET" && during == "reset-fails") {
+					transitionRefused = true
+					return coresim.ErrError
+				}
 				if kind == "kill" {
 					o := ko[0]
 					if t.Class == "c06b" {
@@ -171,11 +187,17 @@ func destroyScenario() *vrt.Scenario {
 			}
 			got, _ := w.EnvState(id)
 			reachedDestroy = true
+			destroying = true
 			f.rpcErr = w.Destroy(id, fl.force, fl.allowRun, fl.keep)
 			vrt.Quiesce("after-destroy")
 			vrt.Sleep(3 * time.Second)
 			vrt.Quiesce("after-destroy2")
 			desc = fmt.Sprintf("state=%s(%s) before=%s flags=%s kill=%v err=%v", st, got, pre, fl.name, ko, f.rpcErr)
+			if during != "none" {
+				// the forced teardown the API falls back to never keeps tasks, whatever the caller asked: the statement lets
+				// it ("unless the caller asked to keep tasks" is a licence, not a duty); the oracle follows the request
+				desc += fmt.Sprintf(" during-destroy=%s(refused=%v)", during, transitionRefused)
+			}
 			vrt.Logf("%s", desc)
 		},
 		Check: func(x *vrt.Exec) (out []vrt.Violation) {
@@ -200,7 +222,7 @@ func destroyScenario() *vrt.Scenario {
 						}
 					}
 				}
-				if !f.killFailed && !strings.Contains(desc, "silent") {
+				if !f.killFailed && !strings.Contains(desc, "silent") && !transitionRefused {
 					out = append(out, vrt.Violation{Clause: "destroy-failed-without-cause", Detail: desc})
 				}
 			}
@@ -243,6 +265,11 @@ func createCases() []createCase {
 		{"configure-silent", "c06-2", on("c06a", "CONFIGURE", coresim.Silent), nil},
 		{"configure-dies", "c06-2", on("c06a", "CONFIGURE", coresim.Dies), nil},
 		{"configure-undeliverable", "c06-2", on("c06b", "CONFIGURE", coresim.Undeliverable), nil},
+		// the workflow has DESTROY hooks and / or a call that is still waiting for its await moment when the creation fails:
+		// the forced teardown of the failed creation runs the hooks (after the release) and must cancel the call
+		{"configure-error:pending-call+hook-tasks", "c06-hooks3", on("c06a", "CONFIGURE", coresim.ErrError), nil},
+		{"configure-error:destroy-call+hook-task", "c06-hooks1", on("c06a", "CONFIGURE", coresim.ErrError), nil},
+		{"configure-dies:hook-tasks+after-destroy-call", "c06-hooks2", on("c06a", "CONFIGURE", coresim.Dies), nil},
 		{"no-fault-schedule-only-b", "c06-hooks0", ok, nil},
 		{"no-fault-schedule-only", "c06-2", ok, nil}, // fails only on unlucky schedules (bound >= 1); then nothing may be left behind either
 	}
@@ -257,6 +284,7 @@ func createScenario() *vrt.Scenario {
 	var holder string
 	var holderBefore, holderAfter string
 	var preFailed bool
+	var ownedAtHook map[string][]string
 	return &vrt.Scenario{Name: "create-fails", Prop: "C06", Doc: "creation failing at every stage", Cfg: cfg,
 		Setup: coresim.ResetStore, Quick: vrt.Bounds{Dev: 1, Seconds: 100}, Thorough: vrt.Bounds{Dev: 2, Seconds: 500},
 		DeadlockClause: "create-hangs", PanicClause: "panic",
@@ -273,6 +301,31 @@ func createScenario() *vrt.Scenario {
 			w = coresim.NewWorld(m)
 			holder, holderBefore, holderAfter = "", "", ""
 			preFailed = false
+			// which non-hook tasks are still owned (by the environment being created) when a DESTROY hook runs
+			ownedAtHook = map[string][]string{}
+			stillOwned := func() (own []string) {
+				for tid, o := range w.TaskOwners() {
+					if o != "" && o != holder {
+						if t := m.Tasks[tid]; t != nil && !strings.HasPrefix(t.Class, "c06hook") {
+							own = append(own, t.Class)
+						}
+					}
+				}
+				sort.Strings(own)
+				return
+			}
+			coresim.OnPluginCall = func(tag, trigger string) {
+				if strings.Contains(trigger, "DESTROY") {
+					ownedAtHook[tag] = stillOwned()
+				}
+			}
+			m.OnCall = func(c *coresim.CallRec) {
+				if c.Type == "MESSAGE" && c.Detail == "TRIGGER" {
+					if t := m.Tasks[c.Task]; t != nil {
+						ownedAtHook[t.Class] = stillOwned()
+					}
+				}
+			}
 			if cc.pre != nil {
 				cc.pre(w)
 				for id := range w.Envs() {
@@ -286,6 +339,7 @@ func createScenario() *vrt.Scenario {
 			}
 			active = true
 			id, st, err := w.Create(cc.workflow, nil)
+			coresim.OnPluginCall = nil
 			vrt.Quiesce("after-create")
 			vrt.Sleep(3 * time.Second)
 			vrt.Quiesce("after-create2")
@@ -324,6 +378,14 @@ func createScenario() *vrt.Scenario {
 			for _, v := range leftovers(w, f, desc) {
 				v.Clause += ":" + cc.name
 				out = append(out, v)
+			}
+			for hook, own := range ownedAtHook {
+				if len(own) > 0 {
+					out = append(out, vrt.Violation{Clause: "destroy-hook-ran-before-tasks-released:" + cc.name, Detail: fmt.Sprintf("hook %s ran while %v were still owned; %s", hook, own, desc)})
+				}
+			}
+			if l := leakedCalls(x); len(l) > 0 {
+				out = append(out, vrt.Violation{Clause: "pending-call-not-cancelled:" + cc.name, Detail: fmt.Sprintf("%v; %s", l, desc)})
 			}
 			return
 		}}
@@ -463,6 +525,166 @@ func hooksScenario(name string, deadHooks bool, q, t vrt.Bounds) *vrt.Scenario {
 		}}
 }
 
+// ---- scenario 3b: DESTROY hooks that misbehave, destroy flags and states the plain hook scenario leaves out ----
+
+// hookFaults: how a DESTROY / after_DESTROY hook misbehaves. The hooks of these workflows are not critical, so none of
+// this is a reason for the destroy to fail, and whatever happens to one hook the others still run after the release and
+// every hook task is released and asked to terminate in the end.
+var hookFaults = []string{"none", "first-trigger-undeliverable", "first-trigger-unanswered", "every-trigger-undeliverable", "destroy-call-fails", "destroy-call-slow"}
+
+func hookFaultsScenario() *vrt.Scenario {
+	var w *coresim.World
+	var f facts
+	var desc, wf, fault, stName string
+	var ownedAtHook map[string][]string
+	var hookTriggered map[string]int
+	var reached bool
+	wfs := []string{"c06-hooks0", "c06-hooks1", "c06-hooks2", "c06-hooks3"}
+	hookStates := []string{"CONFIGURED", "RUNNING", "ERROR"}
+	hookFlags := []struct {
+		name        string
+		force, keep bool
+	}{{"plain", false, false}, {"force", true, false}, {"keepTasks", false, true}}
+	reset := func() {
+		coresim.OnPluginCall = nil
+		for k := range coresim.CallFail {
+			delete(coresim.CallFail, k)
+		}
+		for k := range coresim.CallDelay {
+			delete(coresim.CallDelay, k)
+		}
+	}
+	return &vrt.Scenario{Name: "destroy-hooks-faults", Prop: "C06", Doc: "DESTROY / after_DESTROY hook sets x destroy from CONFIGURED / RUNNING / ERROR x plain / force / keepTasks x a hook that misbehaves (trigger command undeliverable or never answered, plugin call failing or slow)", Cfg: cfg,
+		Setup: func() { coresim.ResetStore(); reset() }, Quick: vrt.Bounds{Dev: 0, Seconds: 100}, Thorough: vrt.Bounds{Dev: 1, Seconds: 500},
+		DeadlockClause: "destroy-hangs", PanicClause: "panic",
+		NonTrivial: func(*vrt.Exec) bool { return reached },
+		Body: func() {
+			f, reached = facts{}, false
+			reset()
+			wf = wfs[vrt.ChooseFree(len(wfs), "workflow")]
+			stName = hookStates[vrt.ChooseFree(len(hookStates), "state")]
+			fl := hookFlags[vrt.ChooseFree(len(hookFlags), "flags")]
+			fault = hookFaults[vrt.ChooseFree(len(hookFaults), "hook-fault")]
+			m := coresim.NewMaster(agents()...)
+			first := ""
+			m.Behaviour = func(t *coresim.SimTask, kind string) coresim.Outcome {
+				if kind == "STOP" && stName == "ERROR" && t.Class == "c06a" {
+					return coresim.ErrError // drive the environment to ERROR through a failing STOP
+				}
+				if kind == "hook" {
+					if first == "" {
+						first = t.ID
+					}
+					switch {
+					case fault == "every-trigger-undeliverable", fault == "first-trigger-undeliverable" && t.ID == first:
+						return coresim.Undeliverable
+					case fault == "first-trigger-unanswered" && t.ID == first:
+						return coresim.Silent
+					}
+				}
+				return coresim.OK
+			}
+			w = coresim.NewWorld(m)
+			ownedAtHook, hookTriggered = map[string][]string{}, map[string]int{}
+			id, _, err := w.Create(wf, nil)
+			if err != nil {
+				vrt.Logf("setup failed %v", err)
+				return
+			}
+			f = facts{envID: id, keepTasks: fl.keep}
+			switch stName {
+			case "RUNNING":
+				w.Control(id, pb.ControlEnvironmentRequest_START_ACTIVITY)
+			case "ERROR":
+				w.Control(id, pb.ControlEnvironmentRequest_START_ACTIVITY)
+				w.Control(id, pb.ControlEnvironmentRequest_STOP_ACTIVITY)
+				vrt.Sleep(2 * time.Second)
+			}
+			switch fault {
+			case "destroy-call-fails":
+				coresim.CallFail["d0"], coresim.CallFail["d1"] = true, true
+			case "destroy-call-slow":
+				coresim.CallDelay["d0"], coresim.CallDelay["d1"] = time.Second, time.Second
+			}
+			stillOwned := func() (own []string) {
+				for tid, o := range w.TaskOwners() {
+					if o == id {
+						if t := m.Tasks[tid]; t != nil && !strings.HasPrefix(t.Class, "c06hook") {
+							own = append(own, t.Class)
+						}
+					}
+				}
+				sort.Strings(own)
+				return
+			}
+			coresim.OnPluginCall = func(tag, trigger string) {
+				if strings.Contains(trigger, "DESTROY") {
+					ownedAtHook[tag] = stillOwned()
+				}
+			}
+			m.OnCall = func(c *coresim.CallRec) {
+				if c.Type == "MESSAGE" && c.Detail == "TRIGGER" {
+					if t := m.Tasks[c.Task]; t != nil {
+						hookTriggered[t.Class]++
+						ownedAtHook[t.Class] = stillOwned()
+					}
+				}
+			}
+			got, _ := w.EnvState(id)
+			reached = true
+			f.rpcErr = w.Destroy(id, fl.force, true, fl.keep)
+			coresim.OnPluginCall = nil
+			vrt.Quiesce("after-destroy")
+			vrt.Sleep(3 * time.Second)
+			vrt.Quiesce("after-destroy2")
+			desc = fmt.Sprintf("workflow=%s state=%s(%s) flags=%s hook-fault=%s err=%v calls=%v triggered=%v", wf, stName, got, fl.name, fault, f.rpcErr, coresim.CallLog, hookTriggered)
+			vrt.Logf("%s", desc)
+		},
+		Check: func(x *vrt.Exec) (out []vrt.Violation) {
+			defer reset()
+			if x.Deadlock != "" || !reached {
+				return nil
+			}
+			for hook, own := range ownedAtHook {
+				if len(own) > 0 {
+					out = append(out, vrt.Violation{Clause: "destroy-hook-ran-before-tasks-released", Detail: fmt.Sprintf("hook %s ran while %v were still owned; %s", hook, own, desc)})
+				}
+			}
+			if f.rpcErr != nil {
+				if _, listed := w.Envs()[f.envID]; listed {
+					// the request was not honoured and says so; but no hook of these workflows is critical
+					return append(out, vrt.Violation{Clause: "destroy-failed-because-of-a-noncritical-hook:" + fault, Detail: desc})
+				}
+				// the environment IS destroyed (no longer listed), only the reply says otherwise: what the statement promises
+				// "after an environment is destroyed" is due all the same
+				out = append(out, vrt.Violation{Clause: "environment-destroyed-but-failure-reported:hook-fault=" + fault, Detail: desc})
+				var running []string
+				for _, v := range leftovers(w, f, desc) {
+					if strings.HasPrefix(v.Clause, "task-never-asked-to-terminate:active:") {
+						running = append(running, strings.TrimPrefix(v.Clause, "task-never-asked-to-terminate:active:"))
+						continue
+					}
+					v.Clause += ":" + wf + ":hook-fault=" + fault + ":after-failure-reply"
+					out = append(out, v)
+				}
+				if len(running) > 0 {
+					// one signature per fault: the reply skipped the task cleanup altogether
+					out = append(out, vrt.Violation{Clause: "tasks-left-running-after-destroy-reported-failure:hook-fault=" + fault,
+						Detail: fmt.Sprintf("environment %s is gone, its tasks %v are alive at the master, were owned by it and were never sent a KILL; %s", f.envID, running, desc)})
+				}
+				return
+			}
+			for _, v := range leftovers(w, f, desc) {
+				v.Clause += ":" + wf + ":hook-fault=" + fault
+				out = append(out, v)
+			}
+			if l := leakedCalls(x); len(l) > 0 {
+				out = append(out, vrt.Violation{Clause: "pending-call-not-cancelled", Detail: fmt.Sprintf("%v; %s", l, desc)})
+			}
+			return
+		}}
+}
+
 // ---- scenario 4: two destroy requests for one environment overlap ---------------------------
 
 func twiceScenario() *vrt.Scenario {
@@ -543,6 +765,96 @@ func twiceScenario() *vrt.Scenario {
 		}}
 }
 
+// ---- scenario 5: destroy requested while the environment is still being created -----------------
+
+// The environment is listed (and can be named in a destroy request) from the moment its workflow is loaded, long
+// before NewEnvironment returns. Timing instead of deviations: launches take a virtual second to report TASK_RUNNING
+// (DEPLOY lasts from 0 to 1 s), a before_CONFIGURE plugin call takes another second (1 s to 2 s), CONFIGURE follows;
+// the destroy request arrives at 0.5 s (state STANDBY, DEPLOY in progress) or at 1.5 s (DEPLOYED, CONFIGURE in progress).
+func destroyWhileCreatingScenario() *vrt.Scenario {
+	var w *coresim.World
+	var f facts
+	var desc string
+	var createErr, destroyErr error
+	var found, done bool
+	return &vrt.Scenario{Name: "destroy-while-creating", Prop: "C06", Doc: "DestroyEnvironment for an environment whose NewEnvironment request is still in its DEPLOY / CONFIGURE transition (plain / force / keepTasks)", Cfg: cfg,
+		Setup: coresim.ResetStore, Quick: vrt.Bounds{Dev: 0, Seconds: 100}, Thorough: vrt.Bounds{Dev: 1, Seconds: 500},
+		DeadlockClause: "destroy-or-create-hangs", PanicClause: "panic",
+		NonTrivial: func(*vrt.Exec) bool { return found && done },
+		Body: func() {
+			f, createErr, destroyErr, found, done = facts{}, nil, nil, false, false
+			for k := range coresim.CallDelay {
+				delete(coresim.CallDelay, k)
+			}
+			coresim.CallDelay["slowcfg"] = time.Second
+			at := []time.Duration{500 * time.Millisecond, 1500 * time.Millisecond}[vrt.ChooseFree(2, "destroy-arrives")]
+			fl := []struct {
+				name        string
+				force, keep bool
+			}{{"plain", false, false}, {"force", true, false}, {"keepTasks", false, true}}[vrt.ChooseFree(3, "flags")]
+			m := coresim.NewMaster(agents()...)
+			m.Behaviour = func(t *coresim.SimTask, kind string) coresim.Outcome {
+				if kind == "launch" {
+					return coresim.SlowLaunch
+				}
+				return coresim.OK
+			}
+			w = coresim.NewWorld(m)
+			f.keepTasks = fl.keep
+			var wg vrt.WaitGroup
+			wg.Add(2)
+			var createState, seenState string
+			vrt.GoFG("creator", func() {
+				_, createState, createErr = w.Create("c06-slowcfg", nil)
+				wg.Done()
+			})
+			vrt.GoFG("destroyer", func() {
+				vrt.Sleep(at)
+				for id, st := range w.Envs() {
+					f.envID, seenState, found = id, st, true
+				}
+				if found {
+					destroyErr = w.Destroy(f.envID, fl.force, true, fl.keep)
+				}
+				wg.Done()
+			})
+			wg.Wait()
+			done = true
+			vrt.Quiesce("after-both")
+			vrt.Sleep(3 * time.Second)
+			vrt.Quiesce("after-both2")
+			desc = fmt.Sprintf("destroy at %v (listed as %s) flags=%s -> destroy err=%v | create state=%s err=%v", at, seenState, fl.name, destroyErr, createState, createErr != nil)
+			vrt.Logf("%s", desc)
+		},
+		Check: func(x *vrt.Exec) (out []vrt.Violation) {
+			delete(coresim.CallDelay, "slowcfg")
+			if x.Deadlock != "" || !found || !done {
+				return nil
+			}
+			_, listed := w.Envs()[f.envID]
+			switch {
+			case destroyErr == nil:
+				// the destroy was honoured: everything the statement promises after a destroy
+				for _, v := range leftovers(w, f, desc) {
+					v.Clause += ":destroyed-while-being-created"
+					out = append(out, v)
+				}
+			case createErr != nil:
+				// the destroy was refused and the creation failed (on its own or because of the attempt): nothing may be left
+				for _, v := range leftovers(w, facts{envID: f.envID, rpcErr: createErr}, desc) {
+					v.Clause += ":creation-failed-while-destroy-was-refused"
+					out = append(out, v)
+				}
+			case !listed:
+				out = append(out, vrt.Violation{Clause: "environment-gone-although-destroy-was-refused-and-creation-succeeded", Detail: desc})
+			}
+			if l := leakedCalls(x); len(l) > 0 {
+				out = append(out, vrt.Violation{Clause: "pending-call-not-cancelled:destroyed-while-being-created", Detail: fmt.Sprintf("%v; %s", l, desc)})
+			}
+			return
+		}}
+}
+
 func leakedCalls(x *vrt.Exec) (out []string) {
 	for _, l := range x.Leaked {
 		if strings.Contains(l, "callable/call.go") {
@@ -577,6 +889,7 @@ func main() {
 		{Name: "c06-mismatch", Hosts: []string{"hostA"}, Tasks: []coresim.TaskSpec{{Name: "tm", Class: "c06m", Mode: "direct", Critical: true, Host: "hostA"}}},
 		{Name: "c06-tmplerr", Hosts: []string{"hostA"}, Tasks: []coresim.TaskSpec{{Name: "te-{{ undefined_function_xyz() }}", Class: "c06a", Mode: "direct", Critical: true, Host: "hostA"}}},
 		{Name: "c06-hooks0", Hosts: []string{"hostA"}, Tasks: two, Calls: []string{callRole("pend", "pending", "before_START_ACTIVITY", "after_NEVERHAPPENS")}},
+		{Name: "c06-slowcfg", Hosts: []string{"hostA"}, Tasks: two, Calls: []string{callRole("slowcfg", "slowcfg", "before_CONFIGURE", "")}},
 		{Name: "c06-hooks1", Hosts: []string{"hostA"}, Tasks: append(append([]coresim.TaskSpec{}, two...), hook(1, "DESTROY")), Calls: []string{callRole("d0", "d0", "DESTROY", "")}},
 		{Name: "c06-hooks2", Hosts: []string{"hostA"}, Tasks: append(append([]coresim.TaskSpec{}, two...), hook(1, "DESTROY-1"), hook(2, "after_DESTROY+1")), Calls: []string{callRole("d1", "d1", "after_DESTROY", "")}},
 		{Name: "c06-hooks3", Hosts: []string{"hostA"}, Tasks: append(append([]coresim.TaskSpec{}, two...), hook(1, "DESTROY-5"), hook(2, "DESTROY+0"), hook(3, "DESTROY+5")), Calls: []string{callRole("pend", "pending", "before_CONFIGURE", "after_NEVERHAPPENS")}},
@@ -584,5 +897,5 @@ func main() {
 	coresim.GlobalSetup(specs...)
 	coresim.BreakFixture()
 	vrt.Main([]*vrt.Scenario{destroyScenario(), createScenario(), hooksScenario("destroy-hooks", false, vrt.Bounds{Dev: 1, Seconds: 100}, vrt.Bounds{Dev: 2, Seconds: 500}),
-		hooksScenario("destroy-hooks-dead", true, vrt.Bounds{Dev: 0, Seconds: 100}, vrt.Bounds{Dev: 1, Seconds: 500}), twiceScenario()})
+		hooksScenario("destroy-hooks-dead", true, vrt.Bounds{Dev: 0, Seconds: 100}, vrt.Bounds{Dev: 1, Seconds: 500}), twiceScenario(), hookFaultsScenario(), destroyWhileCreatingScenario()})
 }
